@@ -139,7 +139,9 @@ OPS = {
     "ctx": ["with_raise(x)", "with_ctx(x)", "x.xs", "len(x)", "x.swallow"],
     "vec": ["x + x", "(x + 1).xs", "x == x", "x != 0", "len(x)", "x[0]", "x[5]", "x[0] = 4", "list(x)", "2 in x", "bool(x)", "repr(x)", "x()", "x(k=3)", "x.total", "x.push(9)", "x.push(1, times=2)",
             "with_ctx(x)", "with_raise(x)", "x.swallow = True", "x.xs", "x._hidden", "x.nope", "x.total = 3", "x.extra = 1", "del x.xs", "hash(x) == hash(tuple(x.xs)) if all(isinstance(i, int) for i in x.xs) else True",
-            "isinstance(x, Vec)", "x.__class__.__name__", "str(x)"],
+            "isinstance(x, Vec)", "x.__class__.__name__", "str(x)",
+            # hash, mutate, hash again as one step (the quick tier's sequences are too short for it): a proxy must not remember the first answer
+            "[hash(x) == hash(tuple(x.xs)), x.push(9), hash(x) == hash(tuple(x.xs))] if all(isinstance(i, int) for i in x.xs) else True"],
 }
 def norm(v, depth=0):
     """value comparable across the two worlds: results that are objects living on the target's side are described structurally"""
